@@ -168,7 +168,7 @@ def gen(prop, stream, tier, avoid):
     kn = stream("knobs")
     knobs = {"cache_size": kn.pick([None, None, "1", "16", "1024"]),
              "clear_p": kn.pick([0.0, 0.0, 0.1, 0.3])}
-    nops = kn.pick([2, 3, 4, 6, 8, 12, 20, 40])
+    nops = kn.pick([2, 3, 4, 6, 8, 12, 20, 40] + ([80] if tier == "thorough" else []))
     # few sizes per run so that sizes repeat
     sizes = sorted(set(kn.randint(1, 8 if tier == "thorough" or kn.chance(0.3) else 5) for _ in range(kn.randint(1, 3))))
     weights = [(r, kn.uniform(0.2, 1.0)) for r in MATRIX_ROUTINES]
